@@ -16,6 +16,7 @@ func init() { register("C11", checkC11) }
 func checkC11(p *Prog, r *Report) {
 	c11Errors(p, r)
 	c11Flags(p, r)
+	c11TableKeys(p, r)
 	c11Result(p, r)
 	dispatcherRule(p, r, "C11.R2b")
 	c11Loops(p, r)
